@@ -169,16 +169,22 @@ func (commander *Commander) CreateTransaction(ctx context.Context, parameters Pa
 		return nil, err
 	}
 
-	if !parameters.DryRun {
-		commander.monitor.CommittedTransactions(ctx, *log.Data.(ledger.NewTransactionLogPayload).Transaction, log.Data.(ledger.NewTransactionLogPayload).AccountMetadata)
+	payload, ok := log.Data.(ledger.NewTransactionLogPayload)
+	if !ok {
+		// the idempotency key belongs to a write of another kind
+		return nil, NewErrConflict()
 	}
 
-	return log.Data.(ledger.NewTransactionLogPayload).Transaction, nil
+	if !parameters.DryRun {
+		commander.monitor.CommittedTransactions(ctx, *payload.Transaction, payload.AccountMetadata)
+	}
+
+	return payload.Transaction, nil
 }
 
 func (commander *Commander) SaveMeta(ctx context.Context, parameters Parameters, targetType string, targetID interface{}, m metadata.Metadata) error {
 	execContext := newExecutionContext(commander, parameters)
-	_, err := execContext.run(ctx, func(executionContext *executionContext) (*ledger.ChainedLog, chan struct{}, error) {
+	chainedLog, err := execContext.run(ctx, func(executionContext *executionContext) (*ledger.ChainedLog, chan struct{}, error) {
 		var (
 			log *ledger.Log
 			at  = ledger.Now()
@@ -213,6 +219,10 @@ func (commander *Commander) SaveMeta(ctx context.Context, parameters Parameters,
 	})
 	if err != nil {
 		return err
+	}
+	if _, ok := chainedLog.Data.(ledger.SetMetadataLogPayload); !ok {
+		// the idempotency key belongs to a write of another kind
+		return NewErrConflict()
 	}
 
 	if !parameters.DryRun {
@@ -254,11 +264,17 @@ func (commander *Commander) RevertTransaction(ctx context.Context, parameters Pa
 		return nil, err
 	}
 
-	if !parameters.DryRun {
-		commander.monitor.RevertedTransaction(ctx, transactionToRevert, log.Data.(ledger.RevertedTransactionLogPayload).RevertTransaction)
+	payload, ok := log.Data.(ledger.RevertedTransactionLogPayload)
+	if !ok {
+		// the idempotency key belongs to a write of another kind
+		return nil, NewErrConflict()
 	}
 
-	return log.Data.(ledger.RevertedTransactionLogPayload).RevertTransaction, nil
+	if !parameters.DryRun {
+		commander.monitor.RevertedTransaction(ctx, transactionToRevert, payload.RevertTransaction)
+	}
+
+	return payload.RevertTransaction, nil
 }
 
 func (commander *Commander) Close() {
@@ -293,7 +309,7 @@ func (commander *Commander) nextTXID(preview bool) *big.Int {
 
 func (commander *Commander) DeleteMetadata(ctx context.Context, parameters Parameters, targetType string, targetID any, key string) error {
 	execContext := newExecutionContext(commander, parameters)
-	_, err := execContext.run(ctx, func(executionContext *executionContext) (*ledger.ChainedLog, chan struct{}, error) {
+	chainedLog, err := execContext.run(ctx, func(executionContext *executionContext) (*ledger.ChainedLog, chan struct{}, error) {
 		var (
 			log *ledger.Log
 			at  = ledger.Now()
@@ -326,6 +342,10 @@ func (commander *Commander) DeleteMetadata(ctx context.Context, parameters Param
 	})
 	if err != nil {
 		return err
+	}
+	if _, ok := chainedLog.Data.(ledger.DeleteMetadataLogPayload); !ok {
+		// the idempotency key belongs to a write of another kind
+		return NewErrConflict()
 	}
 
 	if !parameters.DryRun {
